@@ -417,6 +417,32 @@ example : runProgram 14 cfg1 [.fnD fSub, .letD "a" (.int 1), .letD "b" (.call "i
     (.fnD rfl rfl (.letD rfl (.nil _ _ _)))).1 "b" _ rfl
 
 
+/-- The syntactic form: `plug C e` is the expression `C[e]`; `Reaches cfg fr C F tail st n tl s` says
+that evaluating `C[·]` (fuel `F`, tail flag `tail`, state `st`) evaluates its hole with fuel `n`,
+tail flag `tl` in state `s` — the items and arguments before the hole are non-error values, the
+hole is the first argument of `if/and/or/if_error/is_error/display` or the argument a short-circuit
+native selects, an argument of a strict native, of a user function (by name, tail self-call, or
+computed callee), a tuple/array item, the tuple of an item access, or a computed callee; contexts
+nest.  If `e` ends in a violation there, so does `C[e]`, with the same state. -/
+theorem violation_uncatchable_ctx (cfg : Cfg) (fr : Frame) (C : Ctx) (F n : Nat) (tail tl : Bool) (st s s' : St)
+    (e : Expr) (k : Viol) (hC : Reaches cfg fr C F tail st n tl s)
+    (he : eval n cfg fr e tl s = (.viol k, s')) :
+    eval F cfg fr (plug C e) tail st = (.viol k, s') :=
+  (hC.within e).viol (k := k) (s := s') he
+
+/-- `is_error([1, if_error(□, 0), display(7)])` with `f(1, 2)` in the hole, under a call limit of 1 -/
+example : eval 17 cfg1 frF
+    (.call "is_error" [.arr [.int 1, .call "if_error" [callF, .int 0], disp7]]) false {}
+    = (.viol .calls, { calls := 1 }) :=
+  violation_uncatchable_ctx cfg1 frF
+    (.arg "is_error" [] (.arr [.int 1] (.arg "if_error" [] .hole [.int 0]) [disp7]) [])
+    17 8 false false {} {} _ callF .calls
+    (.specialFirst false (.inr (.inr ⟨.inl rfl, rfl⟩)) rfl
+      (.arr false (.cons rfl rfl (.nil _ _))
+        (.specialFirst false (.inr (.inl ⟨.inr (.inr rfl), _, rfl⟩)) rfl (.hole 8 false _))))
+    rfl
+
+
 /-! ## 4. `display` -/
 
 /-- `display` of an error value writes nothing and returns the error; `display` of a printable value
